@@ -6,7 +6,7 @@ import json
 import math
 import traceback
 from copy import deepcopy
-from datetime import datetime, timedelta
+from datetime import datetime, timedelta, timezone
 
 from hxv import SRC, load_hexital
 
@@ -25,25 +25,42 @@ def case_hash(case) -> str:
     return hashlib.sha1(json.dumps(case, sort_keys=True, default=str).encode()).hexdigest()[:12]
 
 
-def ts_to_dt(ts):
-    return None if ts is None else EPOCH + timedelta(seconds=ts)
+TZOFFS = (None, None, None, None, None, None, 0, 330, -300, 345, 60, -210)  # minutes east of UTC; None = naive
+
+
+def ts_to_dt(ts, tzoff=None):
+    """tzoff: the same wall-clock reading, but timezone-aware with a fixed UTC offset of tzoff minutes"""
+    if ts is None:
+        return None
+    dt = EPOCH + timedelta(seconds=ts)
+    return dt if tzoff is None else dt.replace(tzinfo=timezone(timedelta(minutes=tzoff)))
 
 
 def dt_to_ts(dt):
+    """seconds on the timestamp's own wall clock (an aware timestamp keeps its wall-clock reading)"""
     if dt is None:
         return None
-    d = dt - EPOCH
+    d = dt.replace(tzinfo=None) - EPOCH
     return d.days * 86400 + d.seconds + (d.microseconds / 1e6 if d.microseconds else 0)
 
 
-def mk_candle(row) -> Candle:
+def mk_candle(row, tzoff=None) -> Candle:
     """row = [ts, o, h, l, c, v]"""
     ts, o, h, l, c, v = row
-    return Candle(o, h, l, c, v, timestamp=ts_to_dt(ts))
+    return Candle(o, h, l, c, v, timestamp=ts_to_dt(ts, tzoff))
 
 
-def mk_candles(rows):
-    return [mk_candle(r) for r in rows]
+def mk_candles(rows, tzoff=None):
+    return [mk_candle(r, tzoff) for r in rows]
+
+
+def utc_offsets(candles) -> set:
+    """the UTC offsets (minutes, None = naive) the candles' timestamps carry"""
+    out = set()
+    for c in candles:
+        off = c.timestamp.utcoffset() if c.timestamp is not None else None
+        out.add(None if off is None else int(off.total_seconds() // 60))
+    return out
 
 
 def tf_seconds(tf: str) -> int:
